@@ -349,6 +349,45 @@ func (d TTMLInDuration) duration() (o time.Duration) {
 	return
 }
 
+// ttmlRemoveIndentation removes the items indentation: every line break and the white space that follows it (and the
+// white space the content starts with). Inside a start or end tag the line break separates two attributes, or the name
+// from an attribute: it is replaced by a space, since removing it would glue them together.
+func ttmlRemoveIndentation(s string) string {
+	var b strings.Builder
+	var inTag, lineStart = false, true
+	var quote byte
+	for i := 0; i < len(s); i++ {
+		var c = s[i]
+		if c == '\n' {
+			if inTag {
+				b.WriteByte(' ')
+			}
+			lineStart = true
+			continue
+		}
+		if lineStart && strings.IndexByte(ttmlXMLWhitespace, c) >= 0 {
+			continue
+		}
+		lineStart = false
+		if inTag {
+			if quote != 0 {
+				if c == quote {
+					quote = 0
+				}
+			} else if c == '"' || c == '\'' {
+				quote = c
+			} else if c == '>' {
+				inTag = false
+			}
+		} else if c == '<' && i+1 < len(s) && s[i+1] != '!' && s[i+1] != '?' {
+			// Comments, CDATA sections and processing instructions are not tags
+			inTag = true
+		}
+		b.WriteByte(c)
+	}
+	return b.String()
+}
+
 // ReadFromTTML parses a .ttml content
 func ReadFromTTML(i io.Reader) (o *Subtitles, err error) {
 	// Init
@@ -443,15 +482,9 @@ func ReadFromTTML(i io.Reader) (o *Subtitles, err error) {
 			s.Style = o.Styles[ts.Style]
 		}
 
-		// Remove items identation
-		lines := strings.Split(ts.Items, "\n")
-		for i := 0; i < len(lines); i++ {
-			lines[i] = strings.TrimLeft(lines[i], ttmlXMLWhitespace)
-		}
-
 		// Unmarshal items
 		var items = TTMLInItems{}
-		if err = newTTMLXmlDecoder(strings.Join(lines, "")).Decode(&items); err != nil {
+		if err = newTTMLXmlDecoder(ttmlRemoveIndentation(ts.Items)).Decode(&items); err != nil {
 			err = fmt.Errorf("astisub: unmarshaling items failed: %w", err)
 			return
 		}
